@@ -199,6 +199,9 @@ func (w *Wrapper) Set(key string, val any) {
 	if key == "id" {
 		id, _ := val.(string)
 		w.SetID(id)
+
+		// The ID is not one of the fields handled by setField.
+		return
 	}
 
 	w.setField(key, val)
